@@ -1083,6 +1083,7 @@ func (lbc *LoadBalancerController) sync(task task) {
 		lbc.batchSyncEnabled = false
 		lbc.configurator.EnableReloads()
 		if lbc.updateAllConfigsOnBatch {
+			lbc.updateAllConfigsOnBatch = false
 			lbc.updateAllConfigs()
 		} else {
 			if err := lbc.configurator.ReloadForBatchUpdates(lbc.enableBatchReload); err != nil {
